@@ -45,6 +45,8 @@ const (
 	Park            // block before the operation is sent until Release
 	FailBefore      // return an error, send nothing           (ErrNotApplied)
 	FailAfter       // send, then return an error nevertheless (ErrApplied)
+	PassSlow        // EtcdKV only: etcd takes the rule's delay over the transaction and applies it then, whether or not the caller still waits
+	PassHold        // EtcdKV only: send; if the transaction succeeded, hold its answer (park again) until the next Release
 )
 
 // ErrInjected is the error returned for FailBefore / FailAfter.
